@@ -726,3 +726,159 @@ theorem brt_parseUrlSection (url : BUrlFacts) (u x : Bytes) (hx : encodeUrlSecti
   dsimp only
   rw [hu]
   rfl
+
+/-! ### 4. the exchanges loop and the index of the writer -/
+
+/-- the index entry `WriteTo` records for the exchange `t.1` whose encoded response `t.2.1` starts at `t.2.2` -/
+def brt_toEntry (t : Exch × Bytes × Nat) : IndexEntry :=
+  { url := t.1.url, variants := joinComma (rawValues t.1.resp.headers hVariants),
+    variantKey := joinComma (rawValues t.1.resp.headers hVariantKey), offset := t.2.2, length := t.2.1.length }
+
+/-- the loop of `WriteTo` over the exchanges, keeping exchange, encoded response and offset together -/
+theorem brt_addExchanges : ∀ (es : List Exch) (buf : Bytes) (acc : List IndexEntry) (buf' : Bytes) (acc' : List IndexEntry),
+    addExchanges es buf acc = .ok (buf', acc') →
+    ∃ (L : List (Exch × Bytes × Nat)) (tail : Bytes), L.map (·.1) = es ∧ acc' = acc ++ L.map brt_toEntry ∧
+      buf' = buf ++ tail ∧
+      ∀ t ∈ L, encodeResponse t.1.resp = .ok t.2.1 ∧ buf.length ≤ t.2.2 ∧
+        ∃ A B, buf' = A ++ t.2.1 ++ B ∧ A.length = t.2.2 := by
+  intro es
+  induction es with
+  | nil =>
+    intro buf acc buf' acc' h
+    rw [addExchanges] at h
+    injection h with h
+    injection h with h1 h2
+    subst h1; subst h2
+    exact ⟨[], [], rfl, by simp, by simp, by simp⟩
+  | cons e rest ih =>
+    intro buf acc buf' acc' h
+    rw [addExchanges] at h
+    cases hr : encodeResponse e.resp with
+    | error err => simp only [hr] at h; cases h
+    | ok r =>
+      simp only [hr] at h
+      obtain ⟨L, tail, h1, h2, h3, h4⟩ := ih _ _ _ _ h
+      refine ⟨(e, r, buf.length) :: L, r ++ tail, by simp [h1], ?_, by rw [h3, List.append_assoc], ?_⟩
+      · rw [h2]; simp [brt_toEntry]
+      · intro t ht
+        rcases List.mem_cons.mp ht with rfl | ht
+        · exact ⟨hr, Nat.le_refl _, buf, tail, h3, rfl⟩
+        · obtain ⟨a1, a2, a3⟩ := h4 t ht
+          refine ⟨a1, ?_, a3⟩
+          rw [List.length_append] at a2; omega
+
+/-- with pairwise distinct URLs every group is a singleton, in first-seen order -/
+theorem brt_groupByUrl_nodup : ∀ (es : List IndexEntry) (acc : List (Bytes × List IndexEntry)),
+    (acc.map Prod.fst ++ es.map (·.url)).Nodup →
+    groupByUrl es acc = acc ++ es.map fun e => (e.url, [e]) := by
+  intro es
+  induction es with
+  | nil => intro acc _; simp [groupByUrl]
+  | cons e rest ih =>
+    intro acc hnd
+    have hfresh : e.url ∉ acc.map Prod.fst := by
+      intro hm
+      exact (List.nodup_append.mp hnd).2.2 _ hm e.url (by simp) rfl
+    rw [groupByUrl, brt_any_fst_false acc e.url hfresh, if_neg (by decide), ih _ (by
+      have : ((acc ++ [(e.url, [e])]).map Prod.fst ++ rest.map (·.url)) =
+          acc.map Prod.fst ++ (e :: rest).map (·.url) := by simp
+      rw [this]; exact hnd)]
+    simp
+
+/-- a successful `Finalize` of a b2 index over entries with distinct URLs: one `[offset, length]` entry per
+    resource, all URLs valid UTF-8 -/
+theorem brt_finalize_b2 (entries : List IndexEntry) (idx : Bytes) (hnd : (entries.map (·.url)).Nodup)
+    (h : finalizeIndex .b2 entries = .ok (.ok idx)) :
+    encodeMap (entries.map brt_idxE) = .ok idx ∧ ∀ e ∈ entries, utf8Valid e.url = true := by
+  obtain ⟨hg, hm⟩ := finalizeIndex_b2 entries idx h
+  rw [brt_groupByUrl_nodup entries [] (by simpa using hnd), List.nil_append] at hg hm
+  constructor
+  · rw [← hm, List.map_map]
+    congr 1
+    apply List.map_congr_left
+    intro e _
+    simp [brt_idxE]
+  · intro e he
+    exact (hg (e.url, [e]) (List.mem_map.mpr ⟨e, he, rfl⟩)).1
+
+/-- `parseIndexSection` on the writer's index: `pre` are the sections in front of the responses section -/
+theorem brt_parseIndex_b2 (url : BUrlFacts) (idx : Bytes) (S : Nat) (pre : List SectionOffset) (respLen : Nat)
+    (post : List SectionOffset) (ents : List IndexEntry)
+    (hpre : ∀ s ∈ pre, s.name ≠ nResponses) (hb : S + lenSum pre + respLen < 2 ^ 64)
+    (hall0 : ∀ e ∈ ents, utf8Valid e.url = true ∧ indexUrl url e.url = some e.url ∧ e.offset + e.length ≤ respLen)
+    (h : encodeMap (ents.map brt_idxE) = .ok idx) (hlen : idx.length < 2 ^ 63) :
+    ∃ σ : List IndexEntry, σ.Perm ents ∧
+      parseIndex url .b2 idx S (pre ++ { name := nResponses, length := respLen } :: post) =
+        some (σ.map (brt_mkReq (S + lenSum pre))) := by
+  obtain ⟨σ, n, bs, hσ, e1, e2⟩ := brt_indexEntriesB2_encode url respLen (S + lenSum pre) (by omega) ents idx hall0 h hlen
+  refine ⟨σ, hσ, ?_⟩
+  unfold parseIndex
+  rw [e1]
+  dsimp only
+  have := brt_findSection pre { name := nResponses, length := respLen } post 0 hpre (by omega)
+  dsimp only at this
+  rw [this]
+  dsimp only
+  rw [Nat.zero_add, w64_of_lt (by omega)]
+  exact e2
+
+theorem brt_lengthsOf_le (sections : List (Bytes × Bytes)) (hn : ∀ s ∈ sections, s.1.length ≤ 10) :
+    (lengthsOf sections).length ≤ 9 + sections.length * 28 := by
+  rw [lengthsOf_eq, List.length_append]
+  have h0 := brt_encodeHead_le9 4 (sections.length * 2)
+  have : ((sections.map fun (s : Bytes × Bytes) => Spec.Sxg.tstr s.1 ++ encodeHead 0 s.2.length).flatten).length ≤
+      sections.length * 28 := by
+    clear h0
+    induction sections with
+    | nil => simp
+    | cons s rest ih =>
+      have ih' := ih (fun x hx => hn x (List.mem_cons_of_mem _ hx))
+      have h1 := brt_encodeHead_le9 3 s.1.length
+      have h2 := brt_encodeHead_le9 0 s.2.length
+      have h3 := hn s (by simp)
+      simp only [List.map_cons, List.flatten_cons, List.length_append, List.length_cons, Spec.Sxg.tstr] at ih' ⊢
+      omega
+  omega
+
+/-- the section loop on the writer's b2 sections `index, [primary,] responses` -/
+theorem brt_loop_b2 (url : BUrlFacts) (parseOk : Bytes → Bool) (bs PRE idx respBuf footer : Bytes)
+    (p : List (Bytes × Bytes)) (prim : Option Bytes)
+    (hp : (prim = none ∧ p = []) ∨ ∃ u x, prim = some u ∧ parseUrlSection url x = some u ∧ p = [(nPrimary, x)])
+    (hbs : bs = PRE ++ (idx ++ ((p.map (·.2)).flatten ++ (respBuf ++ footer))))
+    (hfoot : 0 < footer.length) (hlen : bs.length < 2 ^ 64) (reqs : List ReqEntry)
+    (hidx : parseIndex url .b2 idx PRE.length (brt_sos ([(nIndex, idx)] ++ p ++ [(nResponses, respBuf)])) = some reqs) :
+    sectionLoop url parseOk .b2 bs PRE.length (brt_sos ([(nIndex, idx)] ++ p ++ [(nResponses, respBuf)]))
+      (brt_sos ([(nIndex, idx)] ++ p ++ [(nResponses, respBuf)])) PRE.length
+      { version := .b2, primaryURL := none, manifestURL := none, signatures := none, requests := [] } =
+    .ok { version := .b2, primaryURL := prim, manifestURL := none, signatures := none, requests := reqs } := by
+  have hl := congrArg List.length hbs
+  simp only [List.length_append] at hl
+  have hc1 : (bs.drop PRE.length).take idx.length = idx := by
+    rw [hbs, ← List.append_assoc]
+    exact brt_drop_take PRE idx _ _ rfl
+  generalize hsos : brt_sos ([(nIndex, idx)] ++ p ++ [(nResponses, respBuf)]) = sos at *
+  rcases hp with ⟨rfl, rfl⟩ | ⟨u, x, rfl, hpu, rfl⟩
+  · have e : sos = [{ name := nIndex, length := idx.length }, { name := nResponses, length := respBuf.length }] := by
+      rw [← hsos]; rfl
+    rw [e]
+    rw [brt_step_index url parseOk .b2 bs PRE.length _ _ _ PRE.length _ reqs rfl (by dsimp only; omega) hlen
+      (by rw [← e]; dsimp only; rw [hc1]; exact hidx)]
+    rw [brt_step_responses _ _ _ _ _ _ _ _ _ _ rfl, sectionLoop]
+  · have e : sos = [{ name := nIndex, length := idx.length }, { name := nPrimary, length := x.length },
+        { name := nResponses, length := respBuf.length }] := by
+      rw [← hsos]; rfl
+    simp only [List.map_cons, List.map_nil, List.flatten_cons, List.flatten_nil, List.append_nil,
+      List.length_append] at hl
+    have hc2 : (bs.drop (PRE.length + idx.length)).take x.length = x := by
+      rw [hbs]
+      have : PRE ++ (idx ++ (([(nPrimary, x)].map (·.2)).flatten ++ (respBuf ++ footer))) =
+          (PRE ++ idx) ++ x ++ (respBuf ++ footer) := by simp
+      rw [this]
+      exact brt_drop_take _ x _ _ (by simp)
+    rw [e]
+    rw [brt_step_index url parseOk .b2 bs PRE.length _ _ _ PRE.length _ reqs rfl (by dsimp only; omega) hlen
+      (by rw [← e]; dsimp only; rw [hc1]; exact hidx)]
+    dsimp only
+    rw [brt_step_primary url parseOk .b2 bs PRE.length _ _ _ _ _ u rfl (by dsimp only; omega) hlen
+      (by dsimp only; rw [hc2]; exact hpu)]
+    rw [brt_step_responses _ _ _ _ _ _ _ _ _ _ rfl, sectionLoop]
